@@ -714,7 +714,16 @@ func replaceVal(e *Expr, v ssa.Value, repl *Expr) *Expr {
 	if !changed {
 		return e
 	}
-	return &Expr{Op: e.Op, Name: e.Name, Args: na, Val: e.Val}
+	return reorder(&Expr{Op: e.Op, Name: e.Name, Args: na, Val: e.Val})
+}
+
+// reorder restores the canonical operand order of a symmetric comparison after its operands were rewritten.
+func reorder(e *Expr) *Expr {
+	if e.Op == "bin" && len(e.Args) == 2 && (strings.HasPrefix(e.Name, "==") || strings.HasPrefix(e.Name, "!=")) &&
+		e.Args[0].Op != "lin" && e.Args[1].Op != "lin" && e.Args[1].Op != "const" && e.Args[0].String() > e.Args[1].String() {
+		return &Expr{Op: e.Op, Name: e.Name, Args: []*Expr{e.Args[1], e.Args[0]}, Val: e.Val}
+	}
+	return e
 }
 
 // Instances expands a call site whose arguments contain a merge of constants into one instance per incoming edge.
